@@ -67,7 +67,22 @@ def handle (j : Json) : Except String Json := do
     pure (Json.mkObj [("states", Json.arr states.toArray),
       ("facts", Json.mkObj [("stepsIsolated", toJson stepsIsolated), ("flushIsolated", toJson flushIsolated),
         ("timerGuarded", toJson timerGuarded), ("startGuarded", toJson startGuarded),
-        ("shutdownGuarded", toJson shutdownGuarded), ("startedSetLast", toJson startedSetLast)])])
+        ("shutdownGuarded", toJson shutdownGuarded), ("startedSetLast", toJson startedSetLast),
+        ("restartRefused", toJson restartRefused)])])
+  | "handler" =>
+    -- TriggerHandler.start / shutdown on their own, with the application changing its hooks in between
+    let i ← j.getObjVal? "init"
+    let w0 := Extracted.TH.thInit (← hookOf (i.getObjValD "sys")) (← hookOf (i.getObjValD "thr"))
+    let (_, states) ← (← getArr j "ops").toList.foldlM (fun (acc : World × List Json) oj => do
+      let (w, out) := acc
+      let w' ← (match (← getStr oj "op") with
+        | "start" => pure (Extracted.TH.thStart false w)
+        | "shutdown" => pure (Extracted.TH.thShutdown w)
+        | "host_set" => do
+          pure { w with sysHook := (← hookOf (oj.getObjValD "sys")), thrHook := (← hookOf (oj.getObjValD "thr")) }
+        | op => throw s!"unknown handler op {op}")
+      pure (w', out ++ [Json.mkObj [("sys", hookJson w'.sysHook), ("thr", hookJson w'.thrHook)]])) (w0, [])
+    pure (Json.mkObj [("states", Json.arr states.toArray)])
   | "exec" => handleExec j
   | op => throw s!"unknown op {op}"
 
